@@ -334,6 +334,16 @@ func (m *SketchModel) SortedItems() []Item {
 
 // CheckSketchBins compares the bin-level content of the sketch with the model (exact).
 func CheckSketchBins(c *core.Ctx, tag string, s Sketch, m *SketchModel) {
+	checkSketchBins(c, tag, s, m, true)
+}
+
+// CheckSketchBinsOnly is CheckSketchBins without the GetCount comparison (the exact
+// variant's count comes from its statistics, which a partial stream may not match).
+func CheckSketchBinsOnly(c *core.Ctx, tag string, s Sketch, m *SketchModel) {
+	checkSketchBins(c, tag, s, m, false)
+}
+
+func checkSketchBins(c *core.Ctx, tag string, s Sketch, m *SketchModel, withCount bool) {
 	k := s.I()
 	c.Count("oracle.sketch_bin_checks", 1)
 	pos, dup1, np1 := ForEachBins(k.GetPositiveValueStore())
@@ -350,7 +360,7 @@ func CheckSketchBins(c *core.Ctx, tag string, s Sketch, m *SketchModel) {
 	if z := k.GetZeroCount(); z != m.Zero {
 		c.Failf("sketch.zero:"+tag, "zero count %v != model %v", z, m.Zero)
 	}
-	if got, want := k.GetCount(), m.Total(); got != want {
+	if got, want := k.GetCount(), m.Total(); withCount && got != want {
 		c.Failf("sketch.count:"+tag, "GetCount()=%v != model total %v", got, want)
 	}
 }
